@@ -125,3 +125,7 @@ def check(prog: Program, rep):
     none_defaults(prog, rep, "C15.R4")
     rep.rule("C15.R5", "complement removal is strict", floor=1)
     complement_removal(prog, rep, "C15.R5")
+    rep.rule("C15.R6", "with multiplicities the bound of the products x*g covers max(numbers), not only the total", floor=2)
+    from rules.bounds import product_covers_rhs
+    product_covers_rhs(prog, rep, "C15.R6")
+
